@@ -746,7 +746,14 @@ class Interp:
         if isinstance(func, SNamespace) and func.name in self.world.construct_hooks:
             return self.world.construct_hooks[func.name](self, args, kwargs)
         if callable(func):
-            return func(self, *args, **kwargs)
+            try:
+                return func(self, *args, **kwargs)
+            except TypeError as e:
+                # a library model called with a signature it does not describe (extra keyword, other arity): outside the modelled subset, not a crash
+                msg = str(e)
+                if 'unexpected keyword argument' in msg or 'positional argument' in msg or 'required keyword-only' in msg or 'multiple values for argument' in msg:
+                    raise Undecided(f'library model does not describe this call: {msg[:160]}') from None
+                raise
         raise Undecided(f'call of {func!r}')
 
     def call_method(self, recv, name, args, kwargs, node=None):
